@@ -28,6 +28,7 @@ MAX_DEPTH = 4
 MODELS_ON = True
 THREAD_ALL = True
 MAX_AGE = 10
+PRESERVING = ("map", "map_err", "copied", "cloned", "as_ref", "as_mut", "as_deref", "as_deref_mut", "inspect", "inspect_err")
 
 _known = None
 
@@ -450,20 +451,6 @@ def inline_program(bodies_by_tag):
             if j["kind"] in ("Fn", "AssocFn") and j.get("coroutine") is None and bid not in known \
                     and len(j["blocks"]) <= MAX_BLOCKS and j["id"] == j["owner"]:
                 cand[bid] = j
-        # an `async fn` helper is only spliced when all its callers are one function: its future is then re-owned
-        # by that function (below); with several callers it keeps its call boundary
-        if cand:
-            callers = {}
-            for bid, j in bodies.items():
-                for blk in j["blocks"]:
-                    t = blk["t"]
-                    if t["k"] == "call":
-                        for x in (_callee_id(t) or []):
-                            if x in cand and cand[x].get("async"):
-                                callers.setdefault(x, set()).add(j["owner"])
-            for x, owners in callers.items():
-                if len(owners) != 1:
-                    del cand[x]
         done = {}
 
         def process(bid, j, stack):
@@ -536,6 +523,29 @@ def inline_program(bodies_by_tag):
                         if j["owner"] == cid and bid != cid:
                             j["owner"] = new_owner
                             j["reowned_from"] = cid
+                elif None not in hosts and len(hosts) > 1:
+                    # several functions call the helper: each gets its own copy of the helper's closures / future
+                    import json as _json
+                    inner = [bid for bid, j in bodies.items() if j["owner"] == cid and bid != cid]
+                    if not inner:
+                        continue
+                    for h in sorted(hosts):
+                        tagname = cid + "@" + h.rsplit("::", 1)[-1]
+                        for bid in inner:
+                            txt = _json.dumps(bodies[bid]).replace(cid + "::{", tagname + "::{")
+                            nj = _json.loads(txt)
+                            nj["owner"] = h
+                            nj["reowned_from"] = cid
+                            if nj.get("parent") == cid:
+                                nj["parent"] = h
+                            bodies[nj["id"]] = nj
+                        for hb, hj in list(bodies.items()):
+                            if hj["owner"] == h and not hj.get("reowned_from") and (cid + "::{") in _json.dumps(hj["blocks"]):
+                                nh = _json.loads(_json.dumps(hj).replace(cid + "::{", tagname + "::{"))
+                                hj.clear()
+                                hj.update(nh)
+                    for bid in inner:
+                        bodies[bid]["inlined_away"] = True
     return report
 
 
@@ -636,6 +646,11 @@ def _relevant(j):
                 if fn.get("def", "").endswith("Try::branch") and t["args"][0].get("k") in ("copy", "move") and not t["args"][0]["p"]["pr"] and t["args"][0]["p"]["l"] not in rel:
                     rel.add(t["args"][0]["p"]["l"])
                     changed = True
+            if t["k"] == "call" and not t["d"]["pr"] and t["d"]["l"] in rel and t.get("args"):
+                fn = (t["f"].get("fn") or {}) if t["f"].get("k") == "const" else {}
+                if fn.get("def", "").rsplit("::", 1)[-1] in PRESERVING and t["args"][0].get("k") in ("copy", "move") and not t["args"][0]["p"]["pr"] and t["args"][0]["p"]["l"] not in rel:
+                    rel.add(t["args"][0]["p"]["l"])
+                    changed = True
     return rel
 
 
@@ -666,6 +681,7 @@ def _step_block(j, blk, st, esc, rel=None):
     st = dict(st)
     stmts = blk["s"]
     new_stmts = None
+    ret_note = None
     for si, s in enumerate(stmts):
         k = s["k"]
         if k == "dead":
@@ -731,6 +747,10 @@ def _step_block(j, blk, st, esc, rel=None):
                 q = t["args"][0]["p"]["l"]
                 if q in st and st[q][0] in (RESULT, OPTION):
                     val = _branch_map(st[q], None)
+            elif df.rsplit("::", 1)[-1] in PRESERVING and (df.startswith("core::option::Option::") or df.startswith("core::result::Result::")) \
+                    and t["args"] and t["args"][0].get("k") in ("copy", "move") and not t["args"][0]["p"]["pr"] and t["args"][0]["p"]["l"] in st \
+                    and st[t["args"][0]["p"]["l"]][0] in (RESULT, OPTION):
+                val = st[t["args"][0]["p"]["l"]]      # `opt.map(f)`, `res.map_err(f)`, `opt.copied()`: same variant
             elif df.endswith("FromResidual::from_residual") and blk.get("inl"):
                 ty = d.get("ty", "")
                 if ty.startswith(RESULT + "<"):
@@ -743,6 +763,8 @@ def _step_block(j, blk, st, esc, rel=None):
         if not d["pr"]:
             if val is not None:
                 st[d["l"]] = val
+                if d["l"] == 0:
+                    ret_note = val
             else:
                 st.pop(d["l"], None)
     elif t["k"] == "drop":
@@ -750,6 +772,11 @@ def _step_block(j, blk, st, esc, rel=None):
             st.pop(t["p"]["l"], None)
     elif t["k"] == "yield":
         st = {}
+    if ret_note is not None:
+        # the block's call writes the return place with a known variant: recorded for the return-variant map
+        if new_stmts is None:
+            new_stmts = list(stmts)
+        new_stmts = new_stmts + [{"k": "retnote", "adt": ret_note[0], "vi": ret_note[1]}]
     return st, nxt, new_stmts
 
 
